@@ -199,6 +199,11 @@ func (w *world) setupGood() error {
 var allTopics = []string{p2penv.TopicTx, p2penv.TopicBatchTx, p2penv.TopicBlock, p2penv.TopicLtBlock}
 
 func (w *world) linkPeer(p *p2penv.Peer) error {
+	if p.DHT == nil {
+		if err := p.StartDHT(w.n); err != nil {
+			return err
+		}
+	}
 	if err := w.n.Connect(p.Host); err != nil {
 		return err
 	}
